@@ -123,12 +123,12 @@ func values(t syntax.TypeId) []string {
 	}
 }
 
-// convertible drops the scalar value that is a known finding on its own
-// (20-digit float), so that it does not hide its neighbours inside a collection.
+// convertible once dropped scalar values that were known findings on their
+// own (20-digit float, -0.0; both repaired since); it keeps every value now.
 func convertible(vals []string) []string {
 	var out []string
 	for _, v := range vals {
-		if !strings.Contains(v, "123456789012345680000") {
+		if v != "" {
 			out = append(out, v)
 		}
 	}
